@@ -145,30 +145,66 @@ static void human_hist(const e2_spec_t *s, const hist_t *h, char *buf, size_t n)
 	}
 	snprintf(buf + o, n - o, "]");
 }
+/* key -> value map for the abstraction audit: state key -> index of its successor-key row */
+typedef struct { uint64_t (*k)[2]; long *v; size_t cap, n; } kmap_t;
+static size_t kslot(uint64_t a, uint64_t b, size_t cap) { return (size_t) (a ^ (b * 0x9E3779B97F4A7C15ull)) & (cap - 1); }
+static long kmap_get(kmap_t *m, uint64_t a, uint64_t b) {
+	if (!m->cap) return -1;
+	if (a == 0 && b == 0) a = 1;
+	size_t h = kslot(a, b, m->cap);
+	while (m->k[h][0] || m->k[h][1]) { if (m->k[h][0] == a && m->k[h][1] == b) return m->v[h]; h = (h + 1) & (m->cap - 1); }
+	return -1;
+}
+static void kmap_put(kmap_t *m, uint64_t a, uint64_t b, long v) {
+	if (a == 0 && b == 0) a = 1;
+	if (m->n * 2 >= m->cap) { size_t nc = m->cap ? m->cap * 2 : 4096; uint64_t (*nk)[2] = calloc(nc, sizeof *nk); long *nv = calloc(nc, sizeof *nv);
+		for (size_t i = 0; i < m->cap; i++) if (m->k[i][0] || m->k[i][1]) { size_t h = kslot(m->k[i][0], m->k[i][1], nc); while (nk[h][0] || nk[h][1]) h = (h + 1) & (nc - 1); nk[h][0] = m->k[i][0]; nk[h][1] = m->k[i][1]; nv[h] = m->v[i]; }
+		free(m->k); free(m->v); m->k = nk; m->v = nv; m->cap = nc; }
+	size_t h = kslot(a, b, m->cap);
+	while (m->k[h][0] || m->k[h][1]) { if (m->k[h][0] == a && m->k[h][1] == b) { m->v[h] = v; return; } h = (h + 1) & (m->cap - 1); }
+	m->k[h][0] = a; m->k[h][1] = b; m->v[h] = v; m->n++;
+}
+static void kmap_free(kmap_t *m) { free(m->k); free(m->v); memset(m, 0, sizeof *m); }
+
+/* E2.  Level-synchronous BFS.  The results of one level are collected first and then processed in ISSUE order, so the
+ * representative history of every state (and with it every count) does not depend on the order in which children finish.
+ * Abstraction audit (VERIF_E2_AUDIT=1 or spec.audit): every history that reaches an already known state is extended by
+ * every event as well, and each successor key must equal the successor key of the state's representative for the same
+ * event; a mismatch means the canonical dump merges states with different futures (reported, never a property verdict). */
+typedef struct { uint8_t applicable, has_key; int nv; uint64_t a, b; } e2_res_t;
+typedef struct { hist_t h; uint64_t a, b; } e2_fr_t;
+static void e2_succ_key(const e2_res_t *Q, uint64_t *a, uint64_t *b) { if (!Q->applicable) { *a = 0; *b = 0; } else if (!Q->has_key) { *a = 2; *b = 0; } else { *a = Q->a; *b = Q->b; } }
 int e2_explore(e2_spec_t *s) {
 	run_fn fn = harness_find(s->harness);
 	if (!fn) { rep_infra("unknown harness %s", s->harness); return -1; }
+	const char *aud = getenv("VERIF_E2_AUDIT"); int audit = s->audit || (aud && atoi(aud));
 	kset_t seen; memset(&seen, 0, sizeof seen);
-	hist_t *frontier = malloc(sizeof(hist_t)); size_t nfront = 1; memset(&frontier[0], 0, sizeof(hist_t));
-	s->states = 0; s->transitions = 0; s->execs = 0; s->depth_completed = -1; s->exhaustive = 1;
+	e2_fr_t *frontier = calloc(1, sizeof(e2_fr_t)); size_t nfront = 1;
+	e2_fr_t *dups = NULL; size_t ndups = 0;                 /* audit: histories that hit a known state in the previous level */
+	kmap_t rowof; memset(&rowof, 0, sizeof rowof); uint64_t (*rows)[2] = NULL; size_t nrows = 0, caprows = 0;   /* audit: successor keys per representative */
+	s->states = 0; s->transitions = 0; s->execs = 0; s->depth_completed = -1; s->exhaustive = 1; s->audit_checked = 0; s->audit_mismatches = 0;
 	memset(s->states_by_depth, 0, sizeof s->states_by_depth);
-	hist_t *inflight = calloc((size_t) run_parallel(), sizeof(hist_t)); char *used = calloc((size_t) run_parallel(), 1);
+	size_t *inflight = calloc((size_t) run_parallel(), sizeof(size_t)); char *used = calloc((size_t) run_parallel(), 1);
 	uint8_t *job = malloc(s->nparam + 64); uint8_t *payload = malloc(s->nparam + 32);
-	int stop = 0;
+	int stop = 0; size_t NE = (size_t) s->nevents;
 	{ memcpy(payload, s->param, s->nparam); payload[s->nparam] = 0; size_t jn0 = job_build(job, NULL, 0, payload, s->nparam + 1); det_check(s->harness, fn, job, jn0); }
 	for (int depth = 0; depth <= s->max_depth && nfront > 0 && !stop; depth++) {
-		hist_t *next = NULL; size_t nnext = 0, capnext = 0;
-		/* at depth 0 the single job is the empty history; at depth d every frontier history is extended by every event */
-		size_t total = depth == 0 ? 1 : nfront * (size_t) s->nevents;
+		e2_fr_t *next = NULL; size_t nnext = 0, capnext = 0;
+		e2_fr_t *ndup = NULL; size_t nndup = 0, capndup = 0;
+		/* at depth 0 the single job is the empty history; at depth d every frontier history is extended by every event;
+		 * audit jobs (extensions of last level's duplicates) follow behind the regular ones */
+		size_t regular = depth == 0 ? 1 : nfront * NE;
+		size_t total = regular + (audit && depth > 0 ? ndups * NE : 0);
+		e2_res_t *res = calloc(total ? total : 1, sizeof *res);
 		size_t issued = 0;
+#define E2_HIST(i, h) do { if (depth == 0) memset(&(h), 0, sizeof(h)); else if ((i) < regular) { (h) = frontier[(i) / NE].h; (h).ev[(h).len++] = (uint8_t) ((i) % NE); } \
+			else { (h) = dups[((i) - regular) / NE].h; (h).ev[(h).len++] = (uint8_t) (((i) - regular) % NE); } } while (0)
 		for (;;) {
 			while (issued < total && run_outstanding() < run_parallel()) {
 				if (rep_elapsed() > rep_deadline_s) { stop = 1; break; }
-				hist_t h;
-				if (depth == 0) memset(&h, 0, sizeof h);
-				else { h = frontier[issued / (size_t) s->nevents]; h.ev[h.len++] = (uint8_t) (issued % (size_t) s->nevents); }
+				hist_t h; E2_HIST(issued, h);
 				int slot = 0; while (used[slot]) slot++;
-				used[slot] = 1; inflight[slot] = h;
+				used[slot] = 1; inflight[slot] = issued;
 				memcpy(payload, s->param, s->nparam); payload[s->nparam] = h.len; memcpy(payload + s->nparam + 1, h.ev, h.len);
 				size_t jn = job_build(job, NULL, 0, payload, s->nparam + 1 + h.len);
 				run_submit(fn, job, jn, (void *) (intptr_t) slot);
@@ -177,33 +213,72 @@ int e2_explore(e2_spec_t *s) {
 			run_res_t r;
 			if (run_outstanding() == 0) break;
 			run_wait(&r);
-			int slot = (int) (intptr_t) r.tag; hist_t h = inflight[slot]; used[slot] = 0;
+			int slot = (int) (intptr_t) r.tag; size_t idx = inflight[slot]; used[slot] = 0;
+			hist_t h; E2_HIST(idx, h);
 			s->execs++;
 			char human[900]; size_t o = (size_t) snprintf(human, sizeof human, "%s ", s->label ? s->label : s->harness);
 			human_hist(s, &h, human + o, sizeof human - o);
+			e2_res_t *R = &res[idx];
+			R->applicable = !res_line(&r, 'N', 0); R->has_key = (uint8_t) parse_key(&r, 'S', &R->a, &R->b);
+			if (idx >= regular) {      /* audit job: only the key matters; this path's violations are reported through the representative */
+				if (res_line(&r, 'E', 0)) rep_infra("child (audit): %s (%s)", res_line(&r, 'E', 0), human);
+				continue;
+			}
 			memcpy(payload, s->param, s->nparam); payload[s->nparam] = h.len; memcpy(payload + s->nparam + 1, h.ev, h.len);
 			size_t jn = job_build(job, NULL, 0, payload, s->nparam + 1 + h.len);
-			int nv = rep_collect(&r, s->harness, job, jn, human);
+			R->nv = rep_collect(&r, s->harness, job, jn, human);
 			if (s->on_result) s->on_result(&r, h.ev, h.len, job, jn, human);
-			if (res_line(&r, 'N', 0)) continue;          /* event not applicable in this state */
+			if (R->applicable && !R->has_key && R->nv == 0 && r.status == 0) rep_infra("no state key from %s", human);
+		}
+		if (stop) { free(res); free(next); free(ndup); break; }     /* an interrupted level is not processed: only completed depths count */
+		/* process the level in issue order */
+		for (size_t i = 0; i < regular; i++) {
+			e2_res_t *R = &res[i]; hist_t h; E2_HIST(i, h);
+			if (audit && depth > 0 && i % NE == 0) {     /* successor row of the representative frontier[i / NE] */
+				if (nrows + NE > caprows) { if (!caprows) caprows = 65536; while (nrows + NE > caprows) caprows *= 2; rows = realloc(rows, caprows * sizeof *rows); }
+				for (size_t e = 0; e < NE; e++) e2_succ_key(&res[i + e], &rows[nrows + e][0], &rows[nrows + e][1]);
+				kmap_put(&rowof, frontier[i / NE].a, frontier[i / NE].b, (long) nrows); nrows += NE;
+			}
+			if (!R->applicable) continue;
 			if (depth > 0) s->transitions++;
-			uint64_t a, b;
-			if (!parse_key(&r, 'S', &a, &b)) { if (nv == 0 && r.status == 0) rep_infra("no state key from %s", human); continue; }
-			if (kset_add(&seen, a, b)) {
+			if (!R->has_key) continue;
+			if (kset_add(&seen, R->a, R->b)) {
 				s->states++; if (depth < 16) s->states_by_depth[depth]++;
-				if (s->states % 997 == 1 || s->states < 4) rep_sample("%s", human);
-				if (nv == 0) {   /* do not extend histories that already violate: the shortest witness is what we keep */
+				if (s->states % 997 == 1 || s->states < 4) { char human[900]; size_t o = (size_t) snprintf(human, sizeof human, "%s ", s->label ? s->label : s->harness); human_hist(s, &h, human + o, sizeof human - o); rep_sample("%s", human); }
+				if (R->nv == 0) {   /* do not extend histories that already violate: the shortest witness is what we keep */
 					if (nnext == capnext) { capnext = capnext ? capnext * 2 : 1024; next = realloc(next, capnext * sizeof *next); }
-					next[nnext++] = h;
+					next[nnext].h = h; next[nnext].a = R->a; next[nnext].b = R->b; nnext++;
+				}
+			} else if (audit && R->nv == 0 && h.len < 15 && depth < s->max_depth) {
+				if (nndup == capndup) { capndup = capndup ? capndup * 2 : 1024; ndup = realloc(ndup, capndup * sizeof *ndup); }
+				ndup[nndup].h = h; ndup[nndup].a = R->a; ndup[nndup].b = R->b; nndup++;
+			}
+		}
+		/* audit: the successors of last level's duplicates against the rows of their representatives */
+		for (size_t d = 0; audit && depth > 0 && d < ndups; d++) {
+			long row = kmap_get(&rowof, dups[d].a, dups[d].b);
+			if (row < 0) continue;      /* the representative was not expanded (violating state) */
+			for (size_t e = 0; e < NE; e++) {
+				uint64_t qa, qb; e2_succ_key(&res[regular + d * NE + e], &qa, &qb);
+				s->audit_checked++;
+				if (qa != rows[(size_t) row + e][0] || qb != rows[(size_t) row + e][1]) {
+					if (s->audit_mismatches < 5) { char hh[700]; human_hist(s, &dups[d].h, hh, sizeof hh);
+						rep_note("%s ABSTRACTION AUDIT: %s reaches a state with the same canonical dump as an earlier history, but event '%s' leads to a different successor (%llx vs %llx): the dump misses a component that influences the future",
+						         s->label ? s->label : s->harness, hh, s->evname ? s->evname((int) e) : "?", (unsigned long long) qa, (unsigned long long) rows[(size_t) row + e][0]); }
+					s->audit_mismatches++;
 				}
 			}
 		}
-		if (!stop) s->depth_completed = depth;
+		free(res);
+		s->depth_completed = depth;
 		free(frontier); frontier = next; nfront = nnext;
+		free(dups); dups = ndup; ndups = nndup;
 	}
 	if (stop) s->exhaustive = 0;
 	if (nfront == 0 && !stop) rep_note("%s: state space closed at depth %d (no new states)", s->label ? s->label : s->harness, s->depth_completed);
-	free(frontier); free(inflight); free(used); free(job); free(payload); kset_free(&seen);
+	if (audit) { rep_count("abstraction_audit_checked", s->audit_checked); rep_count("abstraction_audit_mismatches", s->audit_mismatches);
+		rep_note("%s abstraction audit: %ld successor keys of histories that reached an already known state compared with their representative's, %ld mismatches", s->label ? s->label : s->harness, s->audit_checked, s->audit_mismatches); }
+	free(frontier); free(inflight); free(used); free(job); free(payload); kset_free(&seen); free(dups); free(rows); kmap_free(&rowof);
 	return 0;
 }
 
